@@ -375,7 +375,7 @@ func runC10(seed uint64, n int, outDir string, replay string) {
 				emit(b, true)
 			}
 			// 2. node Y replays the prefix
-			_, allocs := cwAccounts()
+			_, allocs := cwAllAllocs()
 			Y, err := newZoneNode(newMemDB(), zoneOpts{index: index, allocs: allocs})
 			if err != nil {
 				panic(err)
